@@ -492,6 +492,13 @@ def cases(tier: str) -> list:
         for v in gen(tier):
             for steps in _modes(fam, fam, v, tier, allow_none=fam in ("meta", "vmap", "comment")):
                 out.append({"fam": fam, "kind": fam, "path": "node", "steps": steps})
+    # value maps edited in place (the object handed out by the library) and assigned back
+    c = canon("vmap", "vmap", "full", "node")
+    for v in vmap_values(tier):
+        out.append({"fam": "vmap", "kind": "vmap", "path": "node", "steps": [["create", c], ["edit", v]]})
+        out.append({"fam": "vmap", "kind": "vmap", "path": "node", "steps": [["create", c], ["reopen"], ["edit", v]]})
+        if tier == "thorough":
+            out.append({"fam": "vmap", "kind": "vmap", "path": "node", "steps": [["create", c], ["edit", v], ["reopen"], ["edit", c]]})
     out.append({"fam": "comment", "kind": "comment", "path": "add_comment", "steps": [["create", {"t": "json", "v": [_c("é", "日本", None)]}], ["set", {"t": "json", "v": [_c("Zoë", "2nd ⁄", None)]}]]})
     out.append({"fam": "comment", "kind": "comment", "path": "add_comment-group", "steps": [["create", {"t": "json", "v": [_c("é", "日本", None)]}], ["reopen"], ["set", {"t": "json", "v": [_c("Zoë", "2nd ⁄", None)]}]]})
     out += foreign_cases(tier)
